@@ -42,6 +42,9 @@ type Options struct {
 	// NegativeRoots: unconsumed roots may contain negative components (servers
 	// nobody calls); C02 then compares with the reference semantics' live set.
 	NegativeRoots bool
+	// Scale: 0 = the usual sizes, 1 = larger programs (more definitions, deeper types, longer
+	// main bodies) for the thorough tier.
+	Scale int
 }
 
 func canDrop(m string) bool  { return m == "" || m == "rep" || m == "aff" }
@@ -623,7 +626,7 @@ func Generate(intn func(int) int, opt Options) *Program {
 		g.named["natH"] = &Ty{K: KNamed, Name: "natH", M: g.hi}
 		def("natH", &Ty{K: KPlus, M: g.hi, Brs: []Br{{"z", g.unit(g.hi)}, {"s", g.named["natH"]}}})
 	}
-	nf := g.intn(3)
+	nf := g.intn(3 + 2*opt.Scale)
 	for i := 0; i < nf; i++ {
 		np := 1
 		if g.intn(2) == 1 {
@@ -646,10 +649,10 @@ func Generate(intn func(int) int, opt Options) *Program {
 			params = append(params, Param{names[j], t})
 			ctx = append(ctx, vr{names[j], t})
 		}
-		rt := g.randTy(1, g.base)
+		rt := g.randTy(1+opt.Scale, g.base)
 		name := g.fresh("fn")
 		g.push()
-		body := g.gen(ctx, rt, 2+g.intn(3))
+		body := g.gen(ctx, rt, 2+g.intn(3)+2*opt.Scale)
 		g.pop()
 		d := &Def{Name: name, Params: params, Res: rt, Body: body}
 		if g.intn(6) == 1 {
@@ -660,9 +663,9 @@ func Generate(intn func(int) int, opt Options) *Program {
 		g.sigs = append(g.sigs, d)
 	}
 	var tops []vr
-	nt := g.intn(3)
+	nt := g.intn(3 + opt.Scale)
 	for i := 0; i < nt; i++ {
-		t := g.randTy(2, g.base)
+		t := g.randTy(2+opt.Scale, g.base)
 		// a top-level process may itself be the client of an earlier one
 		var ctx []vr
 		if len(tops) > 0 && g.intn(3) == 1 {
@@ -693,7 +696,7 @@ func Generate(intn func(int) int, opt Options) *Program {
 			}
 		}
 	}
-	p.Procs = append(p.Procs, &Proc{Names: []string{"main"}, T: mainT, Body: g.gen(tops, mainT, 4+g.intn(5))})
+	p.Procs = append(p.Procs, &Proc{Names: []string{"main"}, T: mainT, Body: g.gen(tops, mainT, 4+g.intn(5)+4*opt.Scale)})
 	// now and then an extra unconsumed root started with `exec f()`
 	if g.intn(6) == 1 {
 		t := g.unit(g.base)
